@@ -240,6 +240,7 @@ structure SyncOut where
   upd     : String := ""
   claimed : List CPod := []
   acts    : List Action := []
+  actsDone : Nat := 0                      -- how many of `acts` took effect (a failed pod-control call is the last one)
   outcome : Outcome := .ok
   deriving Repr
 
@@ -330,7 +331,8 @@ def syncF (h : Hashing) (i : SyncIn) (plan : List Fault) : SyncOut :=
       let pf := podFaults i.setName plan i.pods c.claimed b E
       let (st, out) := updateStatefulSet i.view cur.name upd.name (c.claimed.map (·.pod)) pf
       let s := { s with tr := { log := s.tr.log ++ (st.acts.map (actLog i.setName plan i.pods c.claimed b E)).flatten } }
-      let base : SyncOut := { cur := cur.name, upd := upd.name, claimed := c.claimed, acts := st.acts }
+      let base : SyncOut := { cur := cur.name, upd := upd.name, claimed := c.claimed, acts := st.acts,
+                              actsDone := if out == .err then st.acts.length - 1 else st.acts.length }
       match out with
       | .ok =>
         let status := completeRollingUpdate i.view st.status
